@@ -581,6 +581,22 @@ impl Ctx {
                     }
                 }
             }
+            ["rfq", fs, h] => {
+                let fs: Vec<u32> = fs.split(',').map(|x| x.parse::<u32>().ok()).collect::<Option<Vec<u32>>>()?;
+                let xs = parse_hex(h)?;
+                if fs.len() != 256 {
+                    return None;
+                }
+                // the C++ `int` arithmetic is defined only when no merge can overflow
+                let mag: u64 = fs.iter().map(|&f| (f as i32 as i64).unsigned_abs()).sum::<u64>() + 1;
+                if mag >= (1u64 << 31) {
+                    "skip".to_string()
+                } else {
+                    o.count("rfq_reference_trees");
+                    let refh = RefHuffman::from_frequencies(&fs);
+                    to_hex(&ref_comp(&refh, &xs))
+                }
+            }
             ["fq", fs, cap, h] => {
                 let fs: Vec<u32> = fs.split(',').map(|x| x.parse::<u32>().ok()).collect::<Option<Vec<u32>>>()?;
                 let cap: usize = cap.parse().ok()?;
@@ -961,7 +977,29 @@ impl Domain for D {
         Box::new(R { ctx: None })
     }
 
+    /// The request lines are generated section by section (`gen_sections`) and then shuffled
+    /// (seeded), so that the expensive lines (hash sweeps, long inputs) spread evenly over the
+    /// contiguous shards the check cuts the file into; the domain is stateless, order is irrelevant.
     fn gen(&self, tier: &str, seed: u64, w: &mut dyn Write) {
+        let mut buf: Vec<u8> = Vec::new();
+        self.gen_sections(tier, seed, &mut buf);
+        let text = String::from_utf8(buf).expect("utf8");
+        let mut lines: Vec<&str> = text.lines().filter(|l| !l.trim().is_empty()).collect();
+        let fixed = 10.min(lines.len());
+        let mut rng = Rng::new(seed ^ 0x73687566);
+        let n = lines.len();
+        for i in (fixed + 1..n).rev() {
+            let j = fixed + rng.below((i - fixed + 1) as u64) as usize;
+            lines.swap(i, j);
+        }
+        for l in lines {
+            writeln!(w, "{}", l).unwrap();
+        }
+    }
+}
+
+impl D {
+    fn gen_sections(&self, tier: &str, seed: u64, w: &mut dyn Write) {
         let mut rng = Rng::new(seed ^ 0x68756666);
         let thorough = tier == "thorough";
         let search = tier == "search";
@@ -1098,6 +1136,35 @@ impl Domain for D {
         // 5. tables from frequency vectors (last: the model side is slow on these)
         let n = if thorough { 600 } else if search { 30 } else { 60 };
         let mut emitted = 0usize;
+        // the reference's own tree construction (model of ConstructTree/Setbits_r vs. the real C++):
+        // shapes whose reference tree stays shallow
+        {
+            let n_rfq = if thorough { 300 } else if search { 10 } else { 40 };
+            for k in 0..n_rfq {
+                let mut fs = match k % 8 {
+                    0 => shipped.to_vec(),
+                    1 => gen_freqs(&mut rng, 1, &shipped),
+                    2 => gen_freqs(&mut rng, 2, &shipped),
+                    3 => gen_freqs(&mut rng, 3, &shipped),
+                    4 => (0..256).map(|_| 1 + rng.below(3) as u32).collect(),
+                    5 => vec![1 + rng.below(3) as u32; 256],
+                    _ => (0..256).map(|_| 50 + rng.below(1000) as u32).collect(),
+                };
+                // for a third: entries that are negative for the C++ (D16b shape)
+                // (only on top of frequencies >= 50: a negative partial sum keeps absorbing the next
+                // smallest node, small positives would give a chain deeper than 31 = `1 << Depth` UB)
+                if k % 3 == 2 && fs.iter().all(|&x| x >= 50) {
+                    for _ in 0..1 + rng.below(3) {
+                        let i = rng.below(256) as usize;
+                        fs[i] = u32::MAX - rng.below(40) as u32;
+                    }
+                }
+                let m = rng.below(20) as usize;
+                let xs = if rng.chance(1, 2) { rng.bytes(m) } else { gen_content(&mut rng, m) };
+                let line: Vec<String> = fs.iter().map(|x| x.to_string()).collect();
+                writeln!(w, "rfq {} {}", line.join(","), to_hex(&xs)).unwrap();
+            }
+        }
         // one of each fixed shape first
         for kind in [0u64, 12, 5, 6, 9, 13] {
             let fs = gen_freqs(&mut rng, kind, &shipped);
